@@ -294,6 +294,9 @@ def c11(work, tier, seed, replay):
     rep.notes.append(o.strip())
     # bodies longer than what the endpoint reads (16 KiB), through the endpoint as the real FeedBastion sets it up: refused, not cut and understood
     endpoint_e2e_part(work, rep, tier, seed, "C11", ["oversize", "noblank"], prod=False)
+    # ... and well-formed bodies that REACH the handler in pieces (cut anywhere, or line by line: a streamed sender, a relay, HTTP/2 DATA frames) are
+    # understood exactly as the same bytes arriving at once (the in-process driver picks the delivery from the body's content)
+    bastion_part(work, rep, tier, seed, "C11")
     events = read_ndjson(tp)
     jc = dict(c)
     jc["TraceFile"] = tp
